@@ -6,6 +6,7 @@ usage: tools/mutants.py [-p C05] [-m name] [--seeds 1,2,3] [--list]
 A mutant is (name, file, old, new, [property ids that must report a violation]).
 """
 import argparse
+import json
 import os
 import shutil
 import subprocess
@@ -279,6 +280,7 @@ def main():
     ap.add_argument("--tier", default="quick")
     ap.add_argument("--list", action="store_true")
     ap.add_argument("--all-props", action="store_true", help="run every property's check against each mutant")
+    ap.add_argument("--save-corpus", action="store_true", help="copy the shrunk failing case of the first seed to corpus/<ID>/<mutant>.json")
     a = ap.parse_args()
     sel = [m for m in M if (a.mutant is None or a.mutant in m[0]) and (a.prop is None or a.prop in m[4])]
     if a.list:
@@ -307,6 +309,14 @@ def main():
                 env["VERIF_SEED"] = seed
                 rc, outp = run(["./check", pid, a.tier], env)
                 viol = [l for l in outp.splitlines() if l.startswith("  violation")]
+                if a.save_corpus and rc == 1:
+                    reps = [l.split("replay=")[1].strip() for l in outp.splitlines() if l.startswith("VIOLATION")]
+                    dst = os.path.join(ROOT, "corpus", pid)
+                    os.makedirs(dst, exist_ok=True)
+                    if reps and not os.path.exists(os.path.join(dst, name + ".json")):
+                        data = json.load(open(os.path.join(ROOT, reps[0])))
+                        data["origin"] = f"shrunk failing case found by ./check {pid} {a.tier} (seed {seed}) against mutant {name}; passes on the repaired tree"
+                        json.dump(data, open(os.path.join(dst, name + ".json"), "w"), indent=1)
                 res.append((rc, viol[0][:160] if viol else outp.strip().splitlines()[-1][:160] if outp.strip() else ""))
             verdict = "CAUGHT" if all(r[0] == 1 for r in res) else ("PARTIAL" if any(r[0] == 1 for r in res) else "MISSED")
             if any(r[0] == 2 for r in res):
